@@ -230,6 +230,8 @@ BAD_DATES = {  # label -> (from, until)
     "month0": (ymd(22, 0, 1), ymd(23, 1, 1)), "day0": (ymd(22, 1, 0), ymd(23, 1, 1)), "day32": (ymd(22, 1, 32), ymd(23, 1, 1)),
     "feb30": (ymd(24, 2, 30), ymd(25, 1, 1)), "feb29-nonleap": (ymd(23, 2, 29), ymd(25, 1, 1)),
     "apr31": (ymd(22, 4, 31), ymd(25, 1, 1)), "until-month13": (ymd(22, 1, 1), ymd(22, 13, 1)),
+    "jun31": (ymd(22, 6, 31), ymd(25, 1, 1)), "sep31": (ymd(22, 9, 31), ymd(25, 1, 1)), "until-nov31": (ymd(22, 1, 1), ymd(23, 11, 31)),
+    "until-feb30-leap": (ymd(22, 1, 1), ymd(24, 2, 30)),
     "until-feb29-nonleap": (ymd(22, 1, 1), ymd(99, 2, 29)),
     "nondigit": (bytes([0, 10, 0, 1, 0, 1]), ymd(25, 1, 1)), "nondigit-day": (bytes([2, 3, 0, 12, 2, 11]), ymd(25, 1, 1)),
     "until-nondigit": (ymd(22, 1, 1), bytes([2, 5, 0, 1, 0, 0x31])),
@@ -470,7 +472,8 @@ def unit_cvc_chain(ctx):
             sp = M.split(e["cert"])
             sig_ok = bool(sp) and env.sig_ok(sp[0], sp[1], up["pub"])
             dates = [None, e["c"]["from"], e["c"]["until"], add_days(e["c"]["from"], -1), add_days(e["c"]["until"], 1),
-                     add_days(e["c"]["from"], 1), ymd(22, 2, 30), bytes([0, 10, 0, 1, 0, 1]), ymd(0, 0, 0)]
+                     add_days(e["c"]["from"], 1), ymd(22, 2, 30), bytes([0, 10, 0, 1, 0, 1]), ymd(0, 0, 0),
+                     ymd(23, 11, 31), ymd(23, 6, 31)]
             dates = dates[:1] + [x for x in dates[1:] if x is not None]
             for dt in dates:
                 expect = M.val(e["c"], up["c"], dt, sig_ok, env.pubkey_ok(e["pub"]))
